@@ -135,6 +135,17 @@ Proof.
 Qed.
 Print Assumptions C15_destructible.
 
+(* is_convertible (two SFINAE tests - "can To() be formed", "can void(To) be called with a From" - and
+   the void/void clause) is [meta.rel] "To test() { return declval<From>(); } is well-formed", for
+   every compiler on which a function cannot be called with an argument through a void parameter list;
+   [call_ok from to] = "declval<void (&)(To)>()(declval<From>()) is well-formed" *)
+Theorem C15_is_convertible : forall (call_ok : cty -> cty -> bool),
+  (forall from to, std_is_void to = true -> call_ok from to = false) ->
+  forall from to, wf from = true -> wf to = true ->
+    is_convertible_m call_ok from to = std_is_convertible call_ok from to.
+Proof. exact is_convertible_m_spec. Qed.
+Print Assumptions C15_is_convertible.
+
 (* etl::meta (compile-time type lists): at / head / count / index_of / push_back / push_front / tail
    as the partial specialisations compute them are nth_error / hd_error / number of occurrences /
    FIRST position (no value iff the type does not occur) / append / cons, for all lists and indices *)
